@@ -11,8 +11,8 @@ from vlib.core import Case
 from vlib import wire_common as W
 
 ENGINE = "wire"                       # engine of the first part (used by core.py for replays)
-BINS = ["wire"]
-LEAN_MODULES = ["DustVerif.Props.C07"]
+BINS = ["wire", "plist"]
+LEAN_MODULES = ["DustVerif.Props.C07", "DustVerif.Props.C07Plist"]
 RULE = ("part rtps: one datagram per case, `dec <hex>`: (a) valid encodings of generated messages in both byte orders, "
         "(b) one to three structure-aware mutations of them (truncation, bit flips, length-field / flag / id / "
         "numBits / 16- and 32-bit field edits with boundary values, deletions, insertions, duplicated headers), "
@@ -167,8 +167,17 @@ def rtps_cases(ctx):
     return cases
 
 
+from vlib import plist_common as PL
+
+
+def plist_cases(ctx):
+    cases = PL.set_fix_token(PL.c07_cases(ctx.rng, ctx.tier), PL.probe_fixes())
+    return [c for c in cases if not PL.has_foreign_type_information(c.lines[0])]
+
+
 PARTS = [
     {"name": "rtps", "engine": "wire", "cases": rtps_cases, "oracle": rtps_oracle, "nontrivial": rtps_nontrivial},
+    {"name": "plist", "engine": PL.C07_ENGINE, "cases": plist_cases, "oracle": PL.c07_oracle, "nontrivial": PL.c07_nontrivial},
 ]
 
 
@@ -179,7 +188,7 @@ CLAIMED = True   # parts present: see PARTS; the XCDR and parameter-list parts a
 def oracle(case, out):
     """replay entry point of core.py: dispatch on the part recorded in the case (default: first part)"""
     part = next((p for p in PARTS if p["name"] == (case.meta or {}).get("part")), PARTS[0])
-    if "bytes" not in (case.meta or {}):
+    if part["name"] == "rtps" and "bytes" not in (case.meta or {}):
         case.meta = {"bytes": W.unhx(case.lines[0].split()[1]), "part": part["name"]}
     return part["oracle"](case, out)
 
@@ -188,7 +197,10 @@ def run(ctx):
     for part in PARTS:
         cases = part["cases"](ctx)
         for c in cases:
+            if c.meta is None:
+                c.meta = {}
             c.meta["part"] = part["name"]
+            ctx.count("part:" + part["name"])
         ctx.differential(part["engine"], cases, nontrivial=part["nontrivial"], oracle=part["oracle"], shrink=False)
 
 
